@@ -241,6 +241,23 @@ def run(ctx):
              "pid>) from a query on a live process", floor=5)
     _r6(ctx, repo, A)
 
+    # ------------------------------------------------------------------- R7
+    ctx.rule("C03.R7", "a gone process is not answered from a cache: the per-object "
+             "caches that oneshot()/as_dict() activate are deactivated in a `finally` "
+             "around the yield, so an exception (e.g. NoSuchProcess) leaving the block "
+             "cannot leave them active", floor=1)
+    from .c16 import oneshot_cleanup_in_finally
+    okc, where, one = oneshot_cleanup_in_finally(repo)
+    if okc:
+        ctx.ok("C03.R7", "oneshot-cleanup", sample="cache_deactivate / oneshot_exit in finally")
+    else:
+        ctx.fail("C03.R7", "oneshot-cleanup", one.file,
+                 where.lineno if where is not None else one.node.lineno, one.qual,
+                 "the caches activated by oneshot() are not deactivated in a `finally` "
+                 "around the yield: if the process vanishes inside the block (or inside "
+                 "as_dict()), every later query on the object keeps returning the values "
+                 "read before, instead of raising NoSuchProcess")
+
     ctx.assume("fault model as stated: errno failures (ENOENT/ESRCH/EACCES/EPERM) at "
                "any per-process OS access, and zombie state; malformed/truncated "
                "kernel text (parse errors) and system-wide file failures are outside it")
